@@ -590,61 +590,75 @@ static void sPlanner(Sink &sink, const Args &a, long c, int which, Rng &rng)
         lazy->setThreshold(w->threshold);
         pdef->setGoal(lazy);
     }
-    ob::PlannerPtr planner;
-    try
-    {
-        planner = makePlanner(pi, *w, rng);
-        planner->setProblemDefinition(pdef);
-        planner->setup();
-    }
-    catch (const std::exception &)
-    {
-        sink.count("setup_threw:" + name);
-        sink.noteCase(0, false);
-        return;
-    }
-    bool perturb = rng.ui(8) != 0;
-    hook::arm(caseSeed(a, c, 7), perturb);
-    if (lazy) lazy->startSampling();
-    long budget = std::max(300L, (long)pi.budget / 2);
-    EvalPTC e(budget, !pi.optimizing, pdef);
-    std::set<const ob::Path *> before;
-    ob::PlannerStatus st;
-    bool threw = false;
-    try
-    {
-        st = planner->solve(e.ptc);
-    }
-    catch (const std::exception &ex)
-    {
-        threw = true;
-        sink.count("solve_threw:" + name);
-    }
-    if (lazy) lazy->stopSampling();
+    // every third case is cut short: that is where the workers' approximate-solution bookkeeping (best distance and the node it
+    // belongs to, updated by several workers at once) decides what is reported; such runs are cheap, so the case repeats them
+    // with fresh planners, budgets and perturbation seeds
+    const bool cutShort = (c / (6 + N_MT)) % 3 == 1;
+    const int reps = cutShort && !lazyGoal ? 10 : 1;
+    uint64_t sig = 0;
     long events = 0;
-    uint64_t sig = hook::signature(events);
-    if (!threw)
+    bool perturb = false;
+    for (int rep = 0; rep < reps; ++rep)
     {
-        auto sols = pdef->getSolutions();
-        bool solStatus = (bool)st;
-        if (solStatus && sols.empty()) ctx.viol("status-without-path", ctx.detail("solution status but the problem definition holds no solution path"));
-        if (!solStatus && !sols.empty()) ctx.viol("nonsolution-added-path", ctx.detail("non-solution status but a path was added").i("added", sols.size()));
-        if (st == ob::PlannerStatus::EXACT_SOLUTION && !pdef->hasExactSolution()) ctx.viol("exact-status-no-exact-solution", ctx.detail("status EXACT_SOLUTION but no exact solution is held"));
-        for (auto &s : sols) checkSolution(ctx, s, pdef->getGoal());
-        for (size_t k = 1; k < sols.size(); ++k)
-            if (orderedBefore(sols[k], sols[k - 1]))
-            {
-                ctx.viol("ranking", ctx.detail("solutions of the multi-threaded planner are not in the stated order"));
-                break;
-            }
-        if (!sols.empty()) sink.count("c19_planner_solved:" + name);
-        sink.count("c19_planner_runs:" + name);
-        if (e.after > 64 + 16 * 8) ctx.viol("evaluations-after-termination", ctx.detail("kept evaluating the termination condition after it fired").i("after", e.after));
+        if (rep > 0) pdef = makePdef(*w);
+        ob::PlannerPtr planner;
+        try
+        {
+            planner = makePlanner(pi, *w, rng);
+            planner->setProblemDefinition(pdef);
+            planner->setup();
+        }
+        catch (const std::exception &)
+        {
+            sink.count("setup_threw:" + name);
+            sink.noteCase(0, false);
+            return;
+        }
+        perturb = rng.ui(8) != 0;
+        hook::arm(hmix(caseSeed(a, c, 7), rep), perturb);
+        if (lazy) lazy->startSampling();
+        long budget = std::max(300L, (long)pi.budget / 2);
+        if (cutShort) budget = (long)rng.logUni(8, 250);
+        EvalPTC e(budget, !pi.optimizing, pdef);
+        ob::PlannerStatus st;
+        bool threw = false;
+        try
+        {
+            st = planner->solve(e.ptc);
+        }
+        catch (const std::exception &ex)
+        {
+            threw = true;
+            sink.count("solve_threw:" + name);
+        }
+        if (lazy) lazy->stopSampling();
+        events = 0;
+        sig = hook::signature(events);
+        if (!threw)
+        {
+            auto sols = pdef->getSolutions();
+            bool solStatus = (bool)st;
+            if (solStatus && sols.empty()) ctx.viol("status-without-path", ctx.detail("solution status but the problem definition holds no solution path"));
+            if (!solStatus && !sols.empty()) ctx.viol("nonsolution-added-path", ctx.detail("non-solution status but a path was added").i("added", sols.size()));
+            if (st == ob::PlannerStatus::EXACT_SOLUTION && !pdef->hasExactSolution()) ctx.viol("exact-status-no-exact-solution", ctx.detail("status EXACT_SOLUTION but no exact solution is held"));
+            for (auto &s : sols) checkSolution(ctx, s, pdef->getGoal());
+            for (size_t k = 1; k < sols.size(); ++k)
+                if (orderedBefore(sols[k], sols[k - 1]))
+                {
+                    ctx.viol("ranking", ctx.detail("solutions of the multi-threaded planner are not in the stated order"));
+                    break;
+                }
+            if (!sols.empty()) sink.count("c19_planner_solved:" + name);
+            if (!sols.empty() && sols[0].approximate_) sink.count("c19_planner_approximate:" + name);
+            if (cutShort) sink.count("c19_planner_runs_cut_short");
+            sink.count("c19_planner_runs:" + name);
+            if (e.after > 64 + 16 * 8) ctx.viol("evaluations-after-termination", ctx.detail("kept evaluating the termination condition after it fired").i("after", e.after));
+        }
+        sink.count("c19_yield_events", events);
+        emitSig(a, name, sig, events);
     }
-    sink.count("c19_yield_events", events);
-    emitSig(a, name, sig, events);
     sink.noteCase(hmix(sig, hashStr(name)), events > 0 || lazyGoal);
-    sink.sample(J().str("kind", "C19 multi-threaded planner run").str("planner", name).str("space", KIND_NAME[w->kind]).b("perturbed", perturb).i("yield_events", events).str("signature", std::to_string(sig)), 4);
+    sink.sample(J().str("kind", "C19 multi-threaded planner run").str("planner", name).str("space", KIND_NAME[w->kind]).b("perturbed", perturb).b("cut_short", cutShort).i("yield_events", events).str("signature", std::to_string(sig)), 4);
 }
 
 static void runCase(Sink &sink, const Args &a, long c)
